@@ -297,6 +297,9 @@ func refPairs() []refPlan {
 	for _, init := range []string{"pod", "node", "node+wl", "empty"} {
 		for _, a := range ops[init] {
 			for _, b := range ops[init] {
+				if b.Op == "create" {
+					b.W = 2 // distinct workload numbers when both operations create
+				}
 				out = append(out, refPlan{init, a, b})
 			}
 		}
